@@ -63,7 +63,15 @@ struct CounterGuard(Arc<AtomicUsize>);
 
 impl Drop for CounterGuard {
     fn drop(&mut self) {
+        #[cfg(compio_verif)]
+        let verif_section = crate::verif::section();
         self.0.fetch_sub(1, Ordering::AcqRel);
+        #[cfg(compio_verif)]
+        verif_section.emit(
+            crate::verif::WORKER_EXIT,
+            self.0.load(Ordering::Acquire) as u64,
+            0,
+        );
     }
 }
 
@@ -132,12 +140,20 @@ impl AsyncifyPool {
                     // Reserve the slot of the new worker here, in one atomic step with
                     // the limit check. If the worker counted itself in after it has
                     // started, concurrent dispatchers would all pass the check.
+                    #[cfg(compio_verif)]
+                    let verif_section = crate::verif::section();
                     let reserved = self
                         .counter
                         .fetch_update(Ordering::AcqRel, Ordering::Acquire, |n| {
                             (n < self.thread_limit).then_some(n + 1)
                         })
                         .is_ok();
+                    #[cfg(compio_verif)]
+                    verif_section.emit(
+                        crate::verif::POOL_RESERVE,
+                        self.counter.load(Ordering::Acquire) as u64,
+                        reserved as i64,
+                    );
                     if !reserved {
                         // SAFETY: we can ensure the type
                         Err(DispatchError(*unsafe {
